@@ -175,6 +175,10 @@ Remap(pid, v, ds, ps, dv) ==
   /\ ("RemapRecordsGivenDeviceID" \in dv => \E i \in 1..n : ~Actual(ds[i]))
   /\ Injective(ps)
   /\ \A i \in 1..n : OnAny(ps[i], Targets(ds[i])) /\ ps[i] \notin (out \ old)
+  \* One Remap call (all pages to one device - in particular the device that already holds them): the frames
+  \* handed to the chunk are frames that were free before the call, none of them a frame this call releases.
+  \* (Distribute is a sequence of Remap calls: a later chunk may obtain what an earlier chunk released.)
+  /\ (\A i \in 1..n : ds[i] = ds[1]) => (Range(ps) \cap out = {} /\ Range(ps) \cap old = {})
   /\ pt' = [k \in DOMAIN pt |->
               IF k \in keys
               THEN LET i == k[2] - v + 1 IN
